@@ -146,7 +146,9 @@ func (dc *DeploymentController) reconcileOldReplicaSets(ctx context.Context, all
 	klog.V(4).Infof("Cleaned up unhealthy replicas from old RSes by %d", cleanupCount)
 
 	// Scale down old replica sets, need check maxUnavailable to ensure we can scale down
-	allRSs = append(oldRSs, newRS)
+	// allRSs must not share its backing array with oldRSs: it is sorted in place when the new
+	// replica set is looked up, which would move the new replica set into oldRSs.
+	allRSs = append(append(make([]*apps.ReplicaSet, 0, len(oldRSs)+1), oldRSs...), newRS)
 	scaledDownCount, err := dc.scaleDownOldReplicaSetsForRollingUpdate(ctx, allRSs, oldRSs, deployment)
 	if err != nil {
 		return false, nil
